@@ -579,6 +579,18 @@ pub fn run(ctx: &Ctx, replay: Option<&J>) -> i32 {
             ladder.push((format!("range({}) via (i => [3, \"a\", null, 1, [0]][i % 5])", n), (0..n).map(|i| cyc[i % 5].clone()).collect()));
             ladder.push((format!("range({}) via (i => {} - i)", n, n), (0..n).map(|i| RV::Num((n - i) as f64)).collect()));
         }
+        // depth ladder: elements that are equal down to a deep nesting level and differ below it
+        let nest = |x: f64, d: usize| -> RV {
+            let mut v = RV::Num(x);
+            for _ in 0..d {
+                v = RV::List(vec![v]);
+            }
+            v
+        };
+        for &d in if thorough { &[5usize, 16, 31, 32, 33, 34, 40, 63, 64, 65, 100, 129][..] } else { &[33usize, 65][..] } {
+            let l = vec![nest(2.0, d), nest(1.0, d), nest(3.0, d), nest(1.0, d), nest(2.0, d.saturating_sub(1))];
+            ladder.push((rv_src(&RV::List(l.clone())), l));
+        }
         par_for_ctx(ctx, ladder.len(), |i| {
             let (src, l) = &ladder[i];
             let mut sess = Session::new();
@@ -659,6 +671,12 @@ pub fn run(ctx: &Ctx, replay: Option<&J>) -> i32 {
                 records.push(ks.iter().map(|k| k.to_string()).zip(vs.into_iter()).collect());
             }
         }
+    }
+    // wide records (sizes where a map implementation may change representation), keys in a
+    // non-sorted order
+    for n in if thorough { vec![9usize, 16, 17, 21, 33, 64, 65, 257] } else { vec![17, 65] } {
+        let stride = if n % 7 == 0 { 5 } else { 7 };
+        records.push((0..n).map(|i| (format!("k{}", (i * stride + 3) % n), if i % 3 == 0 { RV::Null } else { RV::Num(i as f64) })).collect());
     }
     par_for_ctx(ctx, records.len(), |i| {
         let r = &records[i];
